@@ -70,6 +70,7 @@ ApplyOp(m, o) ==
     [] kind = "Update" -> IF m[k] # 0 THEN [m |-> [m EXCEPT ![k] = tag], err |-> "ok"] ELSE [m |-> m, err |-> "notfound"]
     [] kind = "Delete" -> IF m[k] # 0 THEN [m |-> [m EXCEPT ![k] = 0], err |-> "ok"] ELSE [m |-> m, err |-> "notfound"]
     [] kind = "Truncate" -> [m |-> Empty, err |-> "ok"]        \* Truncate of the method all keys live under
+    [] kind = "Iter" -> [m |-> m, err |-> "ok"]                \* the transaction iterates over its own state: no effect
 
 Holding(i) == w[i].pc \in {"locked", "open", "prestore", "stored", "aborting"}
 
